@@ -17,8 +17,9 @@ open ZygoVerif.VM ZygoVerif.Core
 
 mutual
 /-- Every core form. Side conditions: the body of `let`/`letseq`/`fn`/`defn` is not empty (what
-the elaborator guarantees), and no call has the empty name or a generated name `__anon<n>` as
-its head (such a call inside the anonymous function of that name would be compiled as a self
+the elaborator guarantees), the head and the operands of every call are in the grammar (they are
+compiled at run time by `EvalCallExpression`), and no call has the empty name or a generated name
+`__anon<n>` as its head (such a call inside the anonymous function of that name would be compiled as a self
 tail call without an arity check: C09-02). -/
 def okL : Expr → Bool
   | .int _ => true
@@ -28,7 +29,7 @@ def okL : Expr → Bool
   | .sym _ => true
   | .arr es => okLs es
   | .call (.sym h) args => !anonLike h && okLs args
-  | .call _ _ => true
+  | .call f args => okL f && okLs args
   | .begin_ es => okLs es
   | .def_ _ e => okL e
   | .set_ _ e => okL e
